@@ -78,7 +78,7 @@ IOW_OPEN, IOW_CLOSE, IOW_WRITE, IOW_TRUNC, IOW_SYNC = 1, 2, 3, 4, 5
 
 def load(flavour="so"):
     root = os.path.dirname(os.path.dirname(os.path.abspath(__file__)))
-    L = ct.CDLL(os.path.join(root, "build", flavour, "libjlsv.so"))
+    L = ct.CDLL(os.path.join(os.environ.get("JLS_BUILD_DIR") or os.path.join(root, "build"), flavour, "libjlsv.so"))
     vp, i32, u16, u32, i64 = ct.c_void_p, ct.c_int32, ct.c_uint16, ct.c_uint32, ct.c_int64
     P = ct.POINTER
     sig = {
@@ -190,7 +190,8 @@ def _hash(ids, ev, seed):
 
 def gen_values(dt, gen, ev, ids, base, seed):
     """Sample values as raw unsigned bit patterns (uint64 array), one per id.
-    gen: ["rnd"] | ["ramp", M] | ["bit", P] | ["const", c] | ["bpat", B]"""
+    gen: ["rnd"] | ["ramp", M] | ["bit", P] | ["const", c] | ["bpat", B] | ["rampo", M, offset] (ramp on a large offset:
+    reported to the contract as the plain ramp, statistics are projected after subtracting the offset)"""
     bt, bits = DTYPES[dt]
     n = len(ids)
     kind = gen[0]
@@ -205,6 +206,8 @@ def gen_values(dt, gen, ev, ids, base, seed):
         return h >> np.uint64(64 - bits)
     if kind == "ramp":
         iv = np.mod(ids - base, gen[1]).astype(np.int64)
+    elif kind == "rampo":
+        iv = np.mod(ids - base, gen[1]).astype(np.int64) + np.int64(gen[2])
     elif kind == "bit":
         iv = (np.mod(ids - base, gen[1]) < (gen[1] + 1) // 2).astype(np.int64)
     elif kind == "const":
@@ -430,7 +433,9 @@ class Driver:
             s["wev"].append((q, id0, n, op.get("gen", ["rnd"]), gid))
             if s["first"] is None and n > 0:
                 s["first"] = id0
-        self.emit({"e": "WrFsr", "sig": op["sig"], "id": id0 - s["base"], "n": n, "gen": op.get("gen", ["rnd"])[0],
+        if op.get("gen", ["rnd"])[0] == "rampo":
+            s["soff"] = int(op["gen"][2])
+        self.emit({"e": "WrFsr", "sig": op["sig"], "id": id0 - s["base"], "n": n, "gen": "ramp" if op.get("gen", ["rnd"])[0] == "rampo" else op.get("gen", ["rnd"])[0],
                    "gp": (op.get("gen", ["rnd"]) + [0])[1], "rc": rc, "w": self.wspan(w0)})
 
     def op_omit(self, op):
@@ -587,7 +592,8 @@ class Driver:
             incr = op["incr"]
             for i in range(max(cnt, 0)):
                 mean, std, mn, mx = vals[G + 4 * i:G + 4 * i + 4]
-                ent.append(stat_projection(mean, std, mn, mx, incr))
+                off = float(s.get("soff", 0))       # exact in double: offsets stay below 2^53
+                ent.append(stat_projection(mean - off, std, mn - off, mx - off, incr))
         self.emit({"e": "RdStats", "sig": op["sig"], "start": op["start"], "incr": op["incr"], "cnt": cnt, "rc": rc,
                    "g": gok, "ent": ent})
 
@@ -1215,6 +1221,8 @@ class Driver:
                 for hx in d["ent"]:
                     b = bytes.fromhex(hx)
                     mean, std, mn, mx = struct.unpack("<4d" if wide else "<4f", b)
+                    off = float((self.sigs.get(d["sig"]) or {}).get("soff", 0))
+                    mean, mn, mx = mean - off, mn - off, mx - off
                     pr = stat_projection(mean, std, mn, mx, span)
                     import math
                     pr["m1000"] = _clip(round(mean * 1000)) if math.isfinite(mean) and abs(mean) < 2e6 else 0
